@@ -20,7 +20,7 @@ PIPE = '''
 import dds
 V = 1
 
-def a(): return "a%d" % V
+def a(): return "" if V == 2 else "a%d" % V   # a value whose stored form is empty is a value like any other
 def x(): return "x%d,a\\r\\nb\\rc" % V
 def y(): return "y-const"
 def g(): return ("g", V, [1, 2])
@@ -36,7 +36,7 @@ def first():
     return out
 
 def other_x(): return "other-x%d" % V
-def other_g(): return b"bytes-%d" % V
+def other_g(): return b"" if V == 2 else b"bytes-%d" % V
 
 def second():
     out = {}
